@@ -612,6 +612,9 @@ fn apply_sack_to_sent_queue(
                 && !record.acked
             {
                 record.acked = true;
+                // The payload is dropped below: a retransmission marked earlier (TLP,
+                // T3) must not go out as an empty chunk-less packet.
+                record.needs_retransmit = false;
                 let len = record.payload.len();
                 outcome.bytes_acked_by_gap += len;
 
